@@ -100,7 +100,7 @@ def run_scenario(spec: dict) -> dict:
             cb("a.setup")
 
         def teardown(self):
-            cb("a.teardown")
+            cb("a.teardown", spec.get("teardown_dur", 0.0))
 
         def on_paused(self):
             cb("a.hookP", hook_dur)
